@@ -1028,13 +1028,13 @@ Section Req.
 Variable c : cmd.
 
 (** what the explicit occurrence [m] of the present argument [root] demands: the targets of the [requires] /
-    [requires_if] rules of [root] -- and of the arguments so reached -- whose predicate holds of [m].
-    (As in command.rs [unroll_arg_requires], the rules met along the way are evaluated against the occurrence of
-    the root argument.) *)
+    [requires_if] rules of [root] whose predicate holds of [m], and -- transitively -- the targets of the
+    UNCONDITIONAL [requires] rules of the arguments so reached.  (As in command.rs [unroll_arg_requires] after the
+    repair: a conditional rule of an argument that is only reached through the chain says nothing about the values
+    of [root] and is not followed; it is judged when that argument is itself explicitly present, as a root.) *)
 Inductive req_by (m : marg) (root : id) : id -> Prop :=
 | RB_root a p y : find_arg c root = Some a -> In (p, y) (a_requires a) -> Relations.holds p m -> req_by m root y
-| RB_step x b p y : req_by m root x -> find_arg c x = Some b -> In (p, y) (a_requires b) -> Relations.holds p m ->
-    req_by m root y.
+| RB_step x b y : req_by m root x -> find_arg c x = Some b -> In (PIsPresent, y) (a_requires b) -> req_by m root y.
 
 (** a requirement rule of the definition asks for [x], given the explicit entries of [mt] *)
 Inductive rule_requires (mt : matcher) (x : id) : Prop :=
@@ -1066,7 +1066,7 @@ Proof.
 Qed.
 
 Lemma unroll_loop_sound (m : marg) (root : id) : forall fuel r_vec processed args out,
-  unroll_requires_loop c (fun r => if check_explicit_m (fst r) m then Some (snd r) else None) fuel r_vec processed args
+  unroll_requires_loop c (fun r => if check_explicit_m (fst r) m then Some (snd r) else None) root fuel r_vec processed args
     = Some out ->
   (forall x, In x r_vec -> x = root \/ req_by m root x) ->
   (forall y, In y args -> req_by m root y) ->
@@ -1078,18 +1078,25 @@ Proof.
   { intros H Hr Ha. eapply IH; [exact H| |exact Ha]. intros x Hx. apply Hr. right; exact Hx. }
   destruct (find_arg c a) as [arg|] eqn:Efa.
   2:{ intros H Hr Ha. eapply IH; [exact H| |exact Ha]. intros x Hx. apply Hr. right; exact Hx. }
-  set (l := filter_map (fun r : pred * id => if check_explicit_m (fst r) m then Some (snd r) else None) (a_requires arg)).
+  set (l := filter_map (relevant_rule (fun r : pred * id => if check_explicit_m (fst r) m then Some (snd r) else None)
+                                      (beq a root)) (a_requires arg)).
   change (fold_left _ l (args, [])) with (fold_left ur_step l (args, [])).
   destruct (fold_left ur_step l (args, [])) as [args' pushed'] eqn:Ef.
   apply ur_step_sound in Ef. destruct Ef as [-> Hp].
   intros H Hr Ha.
   assert (Hl : forall y, In y l -> req_by m root y).
-  { intros y Hy. subst l. apply filter_map_in in Hy. destruct Hy as [[p y'] [Hin Hf]]. cbn [fst snd] in Hf.
-    destruct (check_explicit_m p m) eqn:Ece; [|discriminate Hf]. injection Hf as ->.
-    apply Relations.check_explicit_m_spec in Ece.
-    destruct (Hr a (or_introl eq_refl)) as [->|Hra].
-    - eapply RB_root; eassumption.
-    - eapply RB_step; eassumption. }
+  { intros y Hy. subst l. apply filter_map_in in Hy. destruct Hy as [[p y'] [Hin Hf]].
+    unfold relevant_rule in Hf. cbn [fst snd] in Hf.
+    destruct (beq a root) eqn:Eroot.
+    - (* the root's own rules: judged by [func] *)
+      apply beq_eq in Eroot. subst a. cbn [orb] in Hf.
+      destruct (check_explicit_m p m) eqn:Ece; [|discriminate Hf]. injection Hf as ->.
+      apply Relations.check_explicit_m_spec in Ece. eapply RB_root; eassumption.
+    - (* an argument behind the chain: only its unconditional rules *)
+      cbn [orb] in Hf. destruct p as [v|]; cbn [pred_is_present] in Hf; [discriminate Hf|].
+      destruct (check_explicit_m PIsPresent m); [|discriminate Hf]. injection Hf as ->.
+      destruct (Hr a (or_introl eq_refl)) as [->|Hra]; [rewrite beq_refl in Eroot; discriminate Eroot|].
+      eapply RB_step; eassumption. }
   eapply IH; [exact H| |].
   - intros x Hx. apply in_app_or in Hx. destruct Hx as [Hx|Hx]; [|apply Hr; right; exact Hx].
     destruct (Hp x Hx) as [[]|Hx']. right. apply Hl. exact Hx'.
@@ -1110,6 +1117,50 @@ Proof.
     + intros y [<-|[]]. left; reflexivity.
     + intros y [].
   - cbn [fst] in *. eapply RRPresentGroup; eassumption.
+Qed.
+
+(** [req_by] is C03's [Relations.ReqBy] (the two vocabularies were written independently) *)
+Lemma req_by_ReqBy m root y : req_by m root y <-> Relations.ReqBy c root m y.
+Proof.
+  split.
+  - induction 1 as [a p y Ha Hin Hh|x b y _ IH Hb Hin].
+    + eapply Relations.RB_direct; eassumption.
+    + eapply Relations.RB_trans; eassumption.
+  - induction 1 as [a p y Ha Hin Hh|x b y _ IH Hb Hin].
+    + eapply RB_root; eassumption.
+    + eapply RB_step; eassumption.
+Qed.
+
+(** the other inclusion: every id a rule asks for is in the set the validator computes *)
+Theorem requirement_set_complete mt req x :
+  gather_requires c mt (required_graph c) = Some req -> rule_requires mt x -> In x req.
+Proof.
+  intros Hg HR. rewrite Relations.gather_requires_unfold in Hg. apply Relations.gr_fold_spec in Hg.
+  destruct Hg as [Hi He].
+  destruct HR as [a Hin Hr Hid|g Hin Hr Hx|i ma g Hin Hna Hg Hx|i ma Hin Hrb].
+  - apply Hi, Relations.required_graph_spec. left. exists a. repeat split; [exact Hin|exact Hr|symmetry; exact Hid].
+  - apply Hi, Relations.required_graph_spec. right. exists g. repeat split; [exact Hin|exact Hr|].
+    destruct Hx as [Hx|Hx]; [left; symmetry; exact Hx|right; exact Hx].
+  - destruct (He i ma Hin) as [_ Hgrp]. apply (Hgrp g Hna Hg). exact Hx.
+  - assert (Ha : exists a, find_arg c i = Some a).
+    { clear - Hrb. induction Hrb as [a p y Ha _ _|x b y _ IH _ _]; [exists a; exact Ha|exact IH]. }
+    destruct Ha as [a Ha]. destruct (He i ma Hin) as [Harg _]. destruct (Harg a Ha) as [rs [Hu Hrs]].
+    apply Hrs. apply (Relations.ReqBy_unrolled c i ma rs Hu). apply req_by_ReqBy. exact Hrb.
+Qed.
+
+(** the requirement set IS the set of ids demanded by the declarative rule *)
+Theorem requirement_set_exact mt req :
+  gather_requires c mt (required_graph c) = Some req -> forall x, In x req <-> rule_requires mt x.
+Proof.
+  intros Hg x. split; [apply requirement_set_sound; exact Hg|apply requirement_set_complete; exact Hg].
+Qed.
+
+(** ... and it always exists (the worklist never runs out of fuel) *)
+Theorem requirement_set_exists_exact mt :
+  exists req, gather_requires c mt (required_graph c) = Some req /\ forall x, In x req <-> rule_requires mt x.
+Proof.
+  destruct (ValidateTotal.gather_requires_some c mt (required_graph c)) as [req Hg].
+  exists req. split; [exact Hg|apply requirement_set_exact; exact Hg].
 Qed.
 
 (** why [x] is reported missing, without reference to the validator's tables *)
@@ -1453,34 +1504,16 @@ Qed.
 
 Lemma req_by_spec c m root y : req_by c m root y <->
   (exists a p, find_arg c root = Some a /\ In (p, y) (a_requires a) /\ Relations.holds p m)
-  \/ (exists x b p, req_by c m root x /\ find_arg c x = Some b /\ In (p, y) (a_requires b) /\ Relations.holds p m).
+  \/ (exists x b, req_by c m root x /\ find_arg c x = Some b /\ In (PIsPresent, y) (a_requires b)).
 Proof.
   split.
-  - intros [a p y' H1 H2 H3|x b p y' H1 H2 H3 H4].
+  - intros [a p y' H1 H2 H3|x b y' H1 H2 H3].
     + left. exists a, p. auto.
-    + right. exists x, b, p. auto.
-  - intros [[a [p [H1 [H2 H3]]]]|[x [b [p [H1 [H2 [H3 H4]]]]]]].
+    + right. exists x, b. auto.
+  - intros [[a [p [H1 [H2 H3]]]]|[x [b [H1 [H2 H3]]]]].
     + eapply RB_root; eassumption.
     + eapply RB_step; eassumption.
 Qed.
 
-(** * a witness for the observation on [unroll_arg_requires]: with [a.requires(b)] and [b.requires_if("v", y)] the line
-    `--aa v --bb w` is rejected with MissingRequiredArgument(y) although the argument that carries the conditional rule
-    ([b]) has the value "w": the rule is tested against the occurrence of the root [a].  The same line with `--aa z` is
-    accepted.  (Replayed on the crate: same two results.) *)
-Definition quirk_cmd : cmd :=
-  let a := (arg_new [97]) <| a_long := Some [97; 97] |> <| a_requires := [(PIsPresent, [98])] |> in
-  let b := (arg_new [98]) <| a_long := Some [98; 98] |> <| a_requires := [(PEquals [118], [121])] |> in
-  let y := (arg_new [121]) <| a_long := Some [121; 121] |> in
-  (cmd_new [112]) <| c_args := [a; b; y] |>.
-
-Lemma requires_if_chain_witness :
-  plain quirk_cmd = true /\ valid quirk_cmd = true /\
-  (exists e, parse_top quirk_cmd [[112]; ex_dd [97; 97]; [118]; ex_dd [98; 98]; [119]] = OErr e
-             /\ e_kind e = EMissingRequiredArgument /\ e_arg e = [121]) /\
-  (exists m, parse_top quirk_cmd [[112]; ex_dd [97; 97]; [122]; ex_dd [98; 98]; [119]] = OOk m).
-Proof.
-  split; [vm_compute; reflexivity|]. split; [vm_compute; reflexivity|]. split.
-  - eexists. split; [vm_compute; reflexivity|]. split; reflexivity.
-  - eexists. vm_compute. reflexivity.
-Qed.
+(** the witnesses for the repaired behaviour of [unroll_arg_requires] (a conditional rule behind a [requires] chain)
+    and for the kept pre-repair function are in ParseProofs/RequiresChain.v *)
